@@ -36,7 +36,7 @@ func init() {
 	register(&PropSpec{ID: "C08",
 		Explanation: "Totality, panic classes raised by the package's own code: over the call-graph closure of the six readers, Open/OpenFile, the five writers, Write and the exported formatting helpers, every dereference / map store / interface or function-value call (E1: forward must-dataflow of non-nil facts over access paths, with error-correlated results, constructor-non-nil fields and call-site joins for unexported parameters), every index and slice expression (E2: difference constraints from dominating tests, range/counted loops, library length contracts and interprocedural length facts), every integer division, single-result type assertion and explicit panic (E3), and every loop (E4: progress classification) is decided on all paths; unproved sites are either audited residue (rules/residue.txt) or reported.",
 		Assumptions: commonAssumptions,
-		Rules: []Rule{{"nilderef", ruleNilDeref}, {"nil-element", ruleNilProducer}, {"support-currentPage", ruleSupportCurrentPage}, {"bounds", ruleBounds}, {"divzero", ruleDivZero}, {"typeassert", ruleTypeAssert}, {"explicit-panic", rulePanicCalls}, {"support-framerate", ruleSupportFramerate}, {"loops", ruleLoops}},
+		Rules: []Rule{{"nilderef", ruleNilDeref}, {"nil-element", ruleNilProducer}, {"support-currentPage", ruleSupportCurrentPage}, {"support-teletext-tables", ruleTeletextTables}, {"bounds", ruleBounds}, {"divzero", ruleDivZero}, {"typeassert", ruleTypeAssert}, {"explicit-panic", rulePanicCalls}, {"support-framerate", ruleSupportFramerate}, {"loops", ruleLoops}},
 	})
 	register(&PropSpec{ID: "C01",
 		Explanation: "Structural agreement clauses of the SubRip codec: (a) the HTML escape and unescape tables (constant arguments of the two strings.NewReplacer calls) are exact inverses, every escaped form starts with '&', '&' itself is escaped, no escaped form prefixes another — the necessary condition for '&', '<' and NBSP surviving; (b) in the run tokenizer the start-tag and end-tag switches cover the same tags and write the same state fields, every state field is copied into the attributes captured per text run, and the writer closes the tags it opens in reverse order and emits only tags the reader handles; (c) writer separator ∈ reader separators at millisecond scale. Not decided: any equality between decoded documents (line endings, index handling, trailing blank lines, state reset per cue).",
@@ -62,6 +62,11 @@ func init() {
 		Explanation: "Structural agreement clauses of the EBU STL codec, decided by evaluating constants and literal tables of /repo and comparing sibling implementations: (T3) the 1024-byte GSI and 128-byte TTI layouts — writer part widths and reader slice offsets extracted per field — agree field by field, sum to the block sizes and do not overlap; (T2) every character the writer tables encode is decoded back to itself by the reader table, printable ASCII the writer passes through is decoded as itself, no table has duplicate keys or values; (T4) justification code maps are mutually inverse, frame-rate table rows are 8-byte keys with positive rates, STL and TTML language tables cover the same languages; (A5) GSI ↔ Metadata wiring agrees in both directions; every division by the frame rate is guarded. Not decided: timecode quantisation, diacritic composition, style runs, teletext-vs-open display-standard behaviour.",
 		Assumptions: commonAssumptions,
 		Rules: []Rule{{"layouts", ruleSTLLayouts}, {"char-tables", ruleSTLCharTables}, {"code-maps", ruleSTLCodeMaps}, {"metadata-wiring", ruleSTLMetadataWiring}, {"support-framerate", ruleSupportFramerate}},
+	})
+	register(&PropSpec{ID: "C06",
+		Explanation: "Exclusion clause of teletext decoding only (packets of other pages, magazines, PIDs, non-subtitle units never contribute text; characters failing parity contribute none; only boxed text): the chain of control-dependence guards on the only path along which bytes reach a cue's text is decided on the SSA dominator tree — parsePacketData only under receiving ∧ magazine match ∧ 1 ≤ packet ≤ 25; parsePacket only for data-unit id 0x03, framing code 0xe4 and two successful Hamming decodes; parseDataUnit only for EBU data identifiers; process only for the teletext PID, private stream 1 and a presentation time; a page instance starts only on page ∧ magazine match; run text grows only after a start-box; the stored byte is ByteParity's result or 0. Tables: every teletextCharsets row sets g0, national positions < 96, 700+ entries are single UTF-8 runes, colour codes 0–7 map to black…white with the CSS RGB values. Not decided: page scheduling, timing, serial/parallel termination, auto-detection — behaviours of a state machine over the packet sequence; there is no sibling encoder to cross-check against.",
+		Assumptions: commonAssumptions,
+		Rules: []Rule{{"guards", ruleTeletextGuards}, {"tables", ruleTeletextTables}},
 	})
 	register(&PropSpec{ID: "C07",
 		Explanation: "Structural clauses of any-to-any conversion: (a) the extension tables of Open and Subtitles.Write are extracted from the SSA switch and must agree (same codec family per extension, .ts read-only), be case-insensitive and default to ErrInvalidExtension; (b) every writer returns before its first Write/Encode when the list is empty; (c) the CLI sub-command table equals the documented one (operation, flag variables in order, then Write(-o)); (d) no writer dereferences Metadata, styles' or regions' inline style or any optional pointer without a nil test (E1 restricted to the writers' closure). Not decided: cue preservation across the 35 format pairs and operation sequences.",
